@@ -717,6 +717,145 @@ pub open spec fn weq<D: GarnishData>(cells: Map<D::Size, Cell<D::Size, D::Number
     }
 }
 
+// ---------------------------------------------------------------------------------
+// C11: symmetry of structural equality, as a lemma over `deq` / `weq`
+// ---------------------------------------------------------------------------------
+/// the queue with the two sides of every pending pair exchanged
+pub open spec fn mirror<T>(w: Seq<T>) -> Seq<T>
+    decreases w.len()
+{
+    if w.len() < 2 { Seq::empty() } else { mirror(w.take(w.len() - 2)).push(w[w.len() - 1]).push(w[w.len() - 2]) }
+}
+
+pub proof fn lemma_mirror_zipn<T>(a: Seq<T>, b: Seq<T>, n: nat)
+    ensures mirror(zipn(a, b, n)) == zipn(b, a, n)
+    decreases n
+{
+    lemma_zipn_len(a, b, n);
+    if n > 0 {
+        lemma_mirror_zipn(a, b, (n - 1) as nat);
+        lemma_zipn_len(a, b, (n - 1) as nat);
+        let z = zipn(a, b, n);
+        assert(z.take(z.len() - 2) =~= zipn(a, b, (n - 1) as nat));
+    } else {
+        assert(mirror(zipn(a, b, 0)) =~= zipn(b, a, 0));
+    }
+}
+
+pub proof fn lemma_mirror_append<T>(x: Seq<T>, y: Seq<T>)
+    requires y.len() % 2 == 0
+    ensures mirror(x + y) == mirror(x) + mirror(y)
+    decreases y.len()
+{
+    if y.len() == 0 {
+        assert(x + y =~= x);
+        assert(mirror(x) + mirror(y) =~= mirror(x));
+    } else {
+        let w = x + y;
+        let y2 = y.take(y.len() - 2);
+        assert(w.take(w.len() - 2) =~= x + y2);
+        lemma_mirror_append(x, y2);
+        assert(mirror(w) == mirror(x + y2).push(y[y.len() - 1]).push(y[y.len() - 2]));
+        assert(mirror(y) == mirror(y2).push(y[y.len() - 1]).push(y[y.len() - 2]));
+        assert((mirror(x) + mirror(y2)).push(y[y.len() - 1]).push(y[y.len() - 2]) =~= mirror(x) + mirror(y2).push(y[y.len() - 1]).push(y[y.len() - 2]));
+    }
+}
+
+//@@LEMMA C11
+pub proof fn lemma_deq_symmetric<D: GarnishData>(cells: Map<D::Size, Cell<D::Size, D::Number, D::Symbol, D::Char, D::Byte>>, l: D::Size, r: D::Size)
+    ensures deq::<D>(cells, l, r).0 == deq::<D>(cells, r, l).0, mirror(deq::<D>(cells, l, r).1) == deq::<D>(cells, r, l).1, deq::<D>(cells, l, r).1.len() % 2 == 0
+{
+    D::axioms();
+    let cl = cells[l]; let cr = cells[r];
+    if is_seq_ty(cl.ty) && is_seq_ty(cr.ty) {
+        let a = flat_items::<D>(cells, l); let b = flat_items::<D>(cells, r);
+        let n: nat = if a.len() <= b.len() { a.len() } else { b.len() };
+        lemma_mirror_zipn(a, b, n);
+        lemma_zipn_len(a, b, n);
+    } else if cl.ty == GarnishDataType::Pair && cr.ty == GarnishDataType::Pair {
+        let q = seq![cl.a, cr.a, cl.b, cr.b];
+        assert(q.take(2) =~= seq![cl.a, cr.a]);
+        assert(seq![cl.a, cr.a].take(0) =~= Seq::<D::Size>::empty());
+        assert(mirror(seq![cl.a, cr.a]) =~= seq![cr.a, cl.a]);
+        assert(mirror(q) =~= seq![cr.a, cl.a, cr.b, cl.b]);
+    } else {
+        assert(mirror(Seq::<D::Size>::empty()) =~= Seq::<D::Size>::empty());
+        lemma_seq_eq_symmetric_chars::<D>(cl.chars, cr.chars);
+        lemma_seq_eq_symmetric_bytes::<D>(cl.bytes, cr.bytes);
+        lemma_seq_eq_symmetric_parts::<D>(cl.parts, cr.parts);
+    }
+}
+
+pub proof fn lemma_seq_eq_symmetric_chars<D: GarnishData>(a: Seq<D::Char>, b: Seq<D::Char>)
+    ensures seq_eq(a, b) == seq_eq(b, a)
+{
+    D::axioms();
+    if seq_eq(a, b) { assert forall|i: int| 0 <= i < b.len() implies #[trigger] b[i].eq_spec(&a[i]) by { assert(a[i].eq_spec(&b[i])); } }
+    if seq_eq(b, a) { assert forall|i: int| 0 <= i < a.len() implies #[trigger] a[i].eq_spec(&b[i]) by { assert(b[i].eq_spec(&a[i])); } }
+}
+pub proof fn lemma_seq_eq_symmetric_bytes<D: GarnishData>(a: Seq<D::Byte>, b: Seq<D::Byte>)
+    ensures seq_eq(a, b) == seq_eq(b, a)
+{
+    D::axioms();
+    if seq_eq(a, b) { assert forall|i: int| 0 <= i < b.len() implies #[trigger] b[i].eq_spec(&a[i]) by { assert(a[i].eq_spec(&b[i])); } }
+    if seq_eq(b, a) { assert forall|i: int| 0 <= i < a.len() implies #[trigger] a[i].eq_spec(&b[i]) by { assert(b[i].eq_spec(&a[i])); } }
+}
+pub proof fn lemma_seq_eq_symmetric_parts<D: GarnishData>(a: Seq<SymbolListPart<D::Symbol, D::Number>>, b: Seq<SymbolListPart<D::Symbol, D::Number>>)
+    ensures seq_eq(a, b) == seq_eq(b, a)
+{
+    D::axioms();
+    if seq_eq(a, b) { assert forall|i: int| 0 <= i < b.len() implies #[trigger] b[i].eq_spec(&a[i]) by { assert(a[i].eq_spec(&b[i])); } }
+    if seq_eq(b, a) { assert forall|i: int| 0 <= i < a.len() implies #[trigger] a[i].eq_spec(&b[i]) by { assert(b[i].eq_spec(&a[i])); } }
+}
+
+//@@LEMMA C11
+pub proof fn lemma_weq_symmetric<D: GarnishData>(cells: Map<D::Size, Cell<D::Size, D::Number, D::Symbol, D::Char, D::Byte>>, w: Seq<D::Size>, fuel: nat)
+    requires w.len() % 2 == 0
+    ensures weq::<D>(cells, w, fuel) == weq::<D>(cells, mirror(w), fuel)
+    decreases fuel
+{
+    if w.len() >= 2 && fuel > 0 {
+        let r = w[w.len() - 1]; let l = w[w.len() - 2];
+        let base = w.take(w.len() - 2);
+        let m = mirror(w);
+        lemma_mirror_even_len(w);
+        lemma_mirror_even_len(base);
+        assert(m == mirror(base).push(r).push(l));
+        assert(m[m.len() - 1] == l && m[m.len() - 2] == r);
+        assert(m.take(m.len() - 2) =~= mirror(base));
+        lemma_deq_symmetric::<D>(cells, l, r);
+        if !(cells[l].ty == GarnishDataType::Slice || cells[r].ty == GarnishDataType::Slice) && deq::<D>(cells, l, r).0 {
+            lemma_mirror_append(base, deq::<D>(cells, l, r).1);
+            lemma_weq_symmetric::<D>(cells, base + deq::<D>(cells, l, r).1, (fuel - 1) as nat);
+        }
+    } else if w.len() < 2 {
+        assert(mirror(w).len() < 2);
+    } else {
+        lemma_mirror_even_len(w);
+    }
+}
+
+pub proof fn lemma_mirror_even_len<T>(w: Seq<T>)
+    requires w.len() % 2 == 0
+    ensures mirror(w).len() == w.len()
+    decreases w.len()
+{
+    if w.len() >= 2 { lemma_mirror_even_len(w.take(w.len() - 2)); }
+}
+
+/// `l == r` and `r == l` have the same verdict (whenever one is determined within `fuel` steps, so is the other)
+//@@LEMMA C11
+pub proof fn lemma_equality_is_symmetric<D: GarnishData>(cells: Map<D::Size, Cell<D::Size, D::Number, D::Symbol, D::Char, D::Byte>>, l: D::Size, r: D::Size, fuel: nat)
+    ensures weq::<D>(cells, seq![l, r], fuel) == weq::<D>(cells, seq![r, l], fuel)
+{
+    let w = seq![l, r];
+    assert(w.take(w.len() - 2) =~= Seq::<D::Size>::empty());
+    assert(mirror(Seq::<D::Size>::empty()) =~= Seq::<D::Size>::empty());
+    assert(mirror(w) == mirror(w.take(w.len() - 2)).push(w[w.len() - 1]).push(w[w.len() - 2]));
+    assert(mirror(w) =~= seq![r, l]);
+    lemma_weq_symmetric::<D>(cells, w, fuel);
+}
+
 pub trait GarnishData: Sized {
     type Error: std::error::Error + 'static;
     type Symbol: Default + Display + Debug + PartialOrd + TypeConstants + Clone;
@@ -1140,6 +1279,8 @@ pub trait GarnishData: Sized {
             forall|s: Self::Size| #![auto] Self::is_idx(<Self::DataFactory as GarnishDataFactory<Self::Size, Self::Number, Self::Char, Self::Byte, Self::Symbol, Self::Error, Self::SizeIterator, Self::NumberIterator>>::size_to_number_spec(s)),
             forall|a: Self::Number, b: Self::Number| #![auto] Self::is_idx(a) && Self::is_idx(b) ==> Self::num_cmp(a, b) == Some(nat_cmp(Self::nidx(a) as nat, Self::nidx(b) as nat)),
             forall|a: Self::Number, b: Self::Number| #![auto] Self::is_idx(a) && Self::is_idx(b) ==> Self::num_eq(a, b) == (Self::nidx(a) == Self::nidx(b)),
+            // numeric equality is symmetric (unit K1 proves it for SimpleNumber: harness `eq_reflexive_symmetric`)
+            forall|a: Self::Number, b: Self::Number| #![trigger Self::num_eq(a, b)] Self::num_eq(a, b) == Self::num_eq(b, a),
             // the flat item sequence the data object's concatenation iterator yields is the one the walker visits (`walk`, written from the
             // statement): proved for SimpleGarnishData in unit V3 (`collect_concatenation_indices.flat_items_in_order`), assumed for any other
             forall|cells: Map<Self::Size, Cell<Self::Size, Self::Number, Self::Symbol, Self::Char, Self::Byte>>, addr: Self::Size, fuel: nat|
